@@ -22,7 +22,7 @@ MANIFEST_INFO = {
     "engine": "E",
     "design_ref": "DESIGN.md section 5, C07",
     "technique": "bounded-exhaustive enumeration: every matcher expression tree up to a depth bound x every value of its (extended, non-ASCII/control-character) domain for totality of str()/describe()/get_details()/str(MismatchError) in both verbosity modes with and without annotation, assertThat/assert_that/expectThat driven for every pair; every str/bytes over a 9-symbol alphabet up to a length bound x 3 multiline modes for the text_repr/literal_eval round trip",
-    "level_text": "All expression trees of depth <= 2 over the C06 leaf set (quick: at most 1500 per type and level) are applied to every value of their domain, extended with control characters, quotes, backslashes, astral and non-UTF-8 bytes: str(matcher) must be text for every matcher; for every mismatching pair describe() must return str, get_details() a dict of Content, and str(MismatchError) must not raise for verbose in {False, True} with and without an Annotate message; assertThat and assert_that must raise MismatchError exactly for the mismatching pairs, expectThat must never raise and the test must fail after the rest of the body and tearDown ran. text_repr is checked on all 66k (quick) / 597k (thorough) strings and all ASCII byte strings over {a ' \" \\ LF CR e-acute NUL U+1F600} up to length 5 / 6.",
+    "level_text": "All expression trees of depth <= 2 over the C06 leaf set (quick: at most 1500 per type and level) are applied to every value of their domain, extended with control characters, quotes, backslashes, astral and non-UTF-8 bytes: str(matcher) must be text for every matcher; for every mismatching pair describe() must return str, get_details() a dict of Content, and str(MismatchError) must not raise for verbose in {False, True} with and without an Annotate message; assertThat and assert_that must raise MismatchError exactly for the mismatching pairs, expectThat must never raise and the test must fail after the rest of the body and tearDown ran (for the leaf matchers also when expectThat is used in setUp before/after the up-call, in tearDown before/after the up-call or in a cleanup). text_repr is checked on all 66k (quick) / 597k (thorough) strings and all ASCII byte strings over {a ' \" \\ LF CR e-acute NUL U+1F600} up to length 5 / 6.",
     "level_note": "Totality only: whether a pair mismatches is taken from the implementation's own verdict (C06 decides verdicts); the text_repr alphabet holds one member of every character class its escaping logic branches on.",
 }
 
@@ -126,6 +126,64 @@ class _ExpectingThenSkip(testtools.TestCase):
         v, e = self._spec
         self.expectThat(v, e.make(), "expectation")
         self.skipTest("a later skip must not hide the failed expectation")
+
+
+EXPECT_SITES = ("setUp.pre", "setUp", "tearDown.pre", "tearDown", "cleanup")
+
+
+class _ExpectingAt(testtools.TestCase):
+    """expectThat at every place user code runs other than the test method."""
+
+    _spec = None
+    _site = None
+    _log = None
+
+    def _expect(self, site):
+        if site == self._site:
+            v, e = self._spec
+            self.expectThat(v, e.make())
+            self._log.append("after-expectThat@" + site)
+
+    def setUp(self):
+        self._expect("setUp.pre")
+        super().setUp()
+        self.addCleanup(self._expect, "cleanup")
+        self._expect("setUp")
+
+    def test_x(self):
+        self._log.append("test")
+
+    def tearDown(self):
+        self._expect("tearDown.pre")
+        super().tearDown()
+        self._expect("tearDown")
+        self._log.append("tearDown")
+
+
+def check_expect_sites(e, v, res):
+    problems = []
+    try:
+        mismatching = e.make().match(v) is not None
+    except BaseException:
+        return problems
+    for site in EXPECT_SITES:
+        case = _ExpectingAt("test_x")
+        log = []
+        case._spec, case._site, case._log = (v, e), site, log
+        result = rec.Ext()
+        try:
+            case.run(result)
+        except BaseException as ex:
+            problems.append(("expectThat", "run() of a test using expectThat(%r, %s) in %s raised %s" % (v, e.name, site, type(ex).__name__)))
+            continue
+        res.evaluations += 1
+        outs = [x[0] for x in result.log if x[0] in rec.OUTCOMES]
+        if sorted(log) != sorted(["after-expectThat@" + site, "test", "tearDown"]):
+            problems.append(("expectThat", "expectThat(%r, %s) in %s: rest of the test did not run: %r (outcomes %r)" % (v, e.name, site, log, outs)))
+        want = ["addFailure"] if mismatching else ["addSuccess"]
+        if outs != want:
+            problems.append(("expectThat-site", "expectThat(%r, %s) in %s with mismatch=%r gave outcomes %r" % (v, e.name, site, mismatching, outs)))
+    return problems
 
 
 def check_expect_then_skip(e, v, res):
@@ -242,6 +300,7 @@ def run_shard(shard, tier, seed):
                     problems += check_expect(e, v, res)
                 if e.depth == 0:
                     problems += check_expect_then_skip(e, v, res)
+                    problems += check_expect_sites(e, v, res)
                 for clause, msg in problems:
                     fp = "C07/%s" % clause
                     if clause == "matcher-str" or (clause == "mismatcherror-str" and "verbose=True" in msg):
@@ -287,6 +346,8 @@ def replay(data):
                 p = []
                 for v in X.values_for(e, doms):
                     p += check_pair(e, v, res) + check_expect(e, v, res)
+                    if e.depth == 0:
+                        p += check_expect_then_skip(e, v, res) + check_expect_sites(e, v, res)
                 return (not p), "expr=%s problems=%r" % (e.name, p)
         return True, "expression not found"
     finally:
